@@ -2,7 +2,7 @@
 import srvprops
 
 PROP = "C02"
-THEOREMS = ["C02_model_smoke"]
+THEOREMS = ["C02_complete_exactly_once", "C02_complete_whole_step", "C02_each_connection_once", "C02_router_wellformed"]
 
 
 def run(tier, replay=None):
